@@ -163,9 +163,13 @@ def validation_lines(result):
         model_evs = []
         cls = CLS.get(coro)
         skip_task = False
+        late_labels = []
         for e in evs:
             k = e[0]
-            if k == "apiSend":
+            if k == "envFailWrites":
+                # a connection born with a failing first write: the environment label follows the block that opened it
+                late_labels.append("vl envFailWrites %d %d" % (e[1], e[2]))
+            elif k == "apiSend":
                 _, sid, t0, exp, retries, ok = e
                 cls = "apiSend:%d:%d:%d:%d" % (sid, retries, exp - t0, ok)
                 if sid in rejects:
@@ -196,7 +200,8 @@ def validation_lines(result):
                 model_evs.append("qdrop %d %d %s" % (e[1], e[3], e[2]))
             elif k == "wireUnknown":
                 model_evs.append("wireUnknown %d %d" % (e[1], e[-1]))
-        if coro == "_api_send" and cls is None:
+        if cls is None:
+            # later blocks of a task already known as an API send (harness send task, or a subscriber that sends)
             cls = hids.get(name, (None, None))[1]
         if cls is None or skip_task:
             # subscriber bodies and other harness tasks must not touch the socket
@@ -212,5 +217,6 @@ def validation_lines(result):
         # silent steps are sent too: the validator decides whether one is a model block with no
         # visible effect or a stutter (an asyncio-internal suspension inside one model block)
         lines.append("vs %d %s %d %s | %s" % (hid, cls0, 1 if st["done"] else 0, _snap_words(st["snap"]), " ; ".join(model_evs)))
+        lines += late_labels
     lines.append("vt-end")
     return lines
